@@ -93,7 +93,7 @@ def run(tier, seed):
             rep.exclude('%s: probe timed out' % name)
             continue
         for j in range(len(nps) - 1):      # interrupt right after evaluation j+1
-            for mode in ('continue', 'save-restore', 'continue-tol0', 'continue-container', 'single-step-chain'):
+            for mode in ('continue', 'save-restore', 'continue-tol0', 'continue-container', 'single-step-chain', 'continue-same-limits'):
                 lims = {'tol': -1.0, 'min': 1, 'max': (nps[j] - 1) if j > 0 else 0}
                 if mode == 'continue-tol0':
                     # first phase stopped by a positive tolerance, continued with tolerance 0 (never met) and the final budget
@@ -107,6 +107,31 @@ def run(tier, seed):
                 if mode == 'single-step-chain' and j > 0:
                     continue      # the chain has no interruption index of its own: every single step is an interruption
                 case = '%s interrupted after evaluation %d, %s' % (name, j + 1, mode)
+                if mode == 'continue-same-limits':
+                    # the limits of the continuation are already met by the stopped state (the boundary of "larger limits"): the run with these
+                    # limits ends where it was stopped, so the continuation - called twice - must change nothing
+                    try:
+                        S, rec, ret = DP.run_once(c, lims, checks=False)
+                        Fb = final_state(S, ret)
+                        for _ in range(2):
+                            with impl.quiet(), impl.watchdog(240):
+                                ret2 = S['combi'].continue_adaptive_refinement(tol=-1.0, max_evaluations=lims['max'], min_evaluations=1)
+                        Fa = final_state(S, ret2)
+                    except impl.Timeout:
+                        rep.exclude(case + ': timeout')
+                        continue
+                    except Exception as ex:
+                        rep.violation('C14_NoException', {'strategy': c['strategy'], 'mode': mode, 'exception': type(ex).__name__},
+                                      {'config': str(c), 'interrupt_after': j + 1, 'mode': mode, 'exception': repr(ex)}, what=case + ' raised %r' % ex)
+                        continue
+                    fin = {'k': 'Final', 'same_structure': Fa['structure'] == Fb['structure'], 'same_scheme': Fa['scheme'] == Fb['scheme'],
+                           'same_result': DP.close(Fa['result'], Fb['result'], 1e-12), 'same_points': Fa['points'] == Fb['points'], 'restored_same': True,
+                           '_result': [float(x) for x in Fa['result']], '_uninterrupted': [float(x) for x in Fb['result']], '_points': [Fa['points'], Fb['points']]}
+                    tr = DP.to_trace(c, lims, [fin], case)
+                    tr['_sig'] = {'mode': mode, 'structure_same': fin['same_structure'] and fin['same_scheme'] and fin['same_points'], 'new_areas_only': c['strategy'] in ('extendsplit', 'cell')}
+                    traces.append(tr)
+                    rep.count(1, key=case)
+                    continue
                 try:
                     if mode == 'single-step-chain':
                         # the built-in way to interrupt: calls with single_step=True (each stops after the first refinement that adds points), each
